@@ -192,6 +192,16 @@ def rule_nested(ctx: Ctx, repo: Repo) -> None:
                 raise AnalysisError(f"{lab}: result undetermined ({res})")
             ctx.check(admits(res, t), "R-C07.7", w, "the result admits everything the input admitted, also where unions are nested inside containers",
                       construct=f"{lab} -> {show(res)}", scenario=lab)
+            ms_t = members(t)
+            if len(ms_t) >= 2:
+                # the members of a union arrive in an arbitrary order (set iteration, yield order): the result is the same type
+                t_rev = union(*reversed(ms_t))
+                res_rev = RW.DeepScenario(repo, src).result({"t": t_rev})
+                n += 1
+                if not (isinstance(res_rev, R) and res_rev.kind == "raises") and not isinstance(res_rev, U):
+                    ctx.check(RW.canon_key(res_rev) == RW.canon_key(res), "R-C07.7", w,
+                              "rewriting a union gives the same type whatever order its members are in (a nested rewrite does not disturb what is being decided about the outer union)",
+                              construct=f"{lab} -> {show(res)}, with the members reversed -> {show(res_rev)}", scenario=lab)
     ctx.floor("R-C07.7", "nested-type scenarios with real rewriter objects", n, 250)
 
 
